@@ -24,7 +24,7 @@ RULE = ('simulated libraries with known truth: 1-8 cells, 1-40 sites on both str
 ASSUMPTIONS = ['the simulator is the truth (cell, site, strand, UMI by construction)',
                'for hamming>0 / radius>0 only soundness is demanded (chain linkage), for hamming 0 and radius 0 exact equality of the partition']
 MIN_NONTRIVIAL = {'quick': 60, 'thorough': 2000}
-REQUIRED_MONITORS = ['hook:Molecule.write_tags', 'partition:exact_compared', 'partition:soundness_checked', 'tags:molecules_checked',
+REQUIRED_MONITORS = ['class:plain_fragment', 'hook:Molecule.write_tags', 'partition:exact_compared', 'partition:soundness_checked', 'tags:molecules_checked',
                      'history:input_with_duplicate_bits', 'history:retagged', 'cli:records_checked', 'cap:overflow_molecules']
 SHARD_TIMEOUT = {'quick': 900, 'thorough': 5400}
 
@@ -124,7 +124,7 @@ def run_case(case):
     from singlecellmultiomics.molecule import MoleculeIterator
     acc = Acc()
     r = rng(case['seed'], 'C06', case['i'])
-    method = r.choice(['nla', 'nla', 'chic', 'chic'])
+    method = r.choice(['nla', 'nla', 'chic', 'chic', 'plain'])
     d = r.choice([0, 0, 0, 1, 2])
     radius = r.choice([0, 0, 5]) if method == 'chic' else 0
     pooling = r.choice([0, 1])
@@ -135,7 +135,7 @@ def run_case(case):
     contigs = [(f'chr{j + 1}', r.choice([3000, 8000, 20000])) for j in range(ncontig)]
     n_sites = r.choice([1, 3, 8, 20, 40])
     gen, recs, truths = F.simulate_library(
-        r, method=method, contigs=contigs, n_cells=r.randint(1, 8), n_sites=n_sites, umi_len=r.choice([3, 3, 6]),
+        r, method='nla' if method == 'plain' else method, contigs=contigs, n_cells=r.randint(1, 8), n_sites=n_sites, umi_len=r.choice([3, 3, 6]),
         umis_per_site=(1, r.choice([1, 3, 6])), copies=(1, r.choice([1, 3, 5])), case_id=case['i'] + 1, p_clip=0.25,
         p_invalid=0.08 if method == 'nla' else 0.0, p_umi_neighbour=0.5, chic_trimmed=trimmed,
         p_dup_flag=0.5 if history == 'dupbits' else 0.0, p_stale=0.6 if history == 'stale' else 0.0,
@@ -147,9 +147,14 @@ def run_case(case):
     if history != 'clean':
         acc.count('history:input_with_duplicate_bits')
     tp = truth_partition(truths)
-    mclass = smm.NlaIIIMolecule if method == 'nla' else smm.CHICMolecule
-    fclass = smf.NlaIIIFragment if method == 'nla' else smf.CHICFragment
+    mclass = {'nla': smm.NlaIIIMolecule, 'chic': smm.CHICMolecule, 'plain': smm.Molecule}[method]
+    fclass = {'nla': smf.NlaIIIFragment, 'chic': smf.CHICFragment, 'plain': smf.Fragment}[method]
     fargs = {'umi_hamming_distance': d}
+    if method == 'plain':
+        # plain fragments: equality is span based (start or end within the radius), so only soundness is demanded: the site of the
+        # simulator is not what these classes compare
+        fargs['assignment_radius'] = 0
+        acc.count('class:plain_fragment')
     if method == 'chic':
         fargs['assignment_radius'] = radius
     margs = {}
@@ -169,7 +174,7 @@ def run_case(case):
         missing = valid_ids - set(all_ids) - overflow_ids
         if missing:
             acc.violate('valid-fragment-not-yielded', f'{label}: valid fragments {sorted(missing)[:5]} are in no molecule ({cfg})', wit)
-        if d == 0 and radius == 0 and not cap:
+        if d == 0 and radius == 0 and not cap and method != 'plain':
             acc.count('partition:exact_compared')
             if got != tp:
                 only_got = sorted(map(sorted, got - tp))[:3]
@@ -185,7 +190,7 @@ def run_case(case):
             if len(set((t['sample'], t['contig'], t['reverse']) for t in ts)) > 1:
                 acc.violate('molecule-mixes-cell-strand-or-contig', f'{label}: molecule {sorted(g)} mixes {set((t["sample"], t["contig"], t["reverse"]) for t in ts)} ({cfg})', wit)
                 continue
-            if not connected([t['site'] for t in ts], lambda a, b: abs(a - b) <= radius):
+            if method != 'plain' and not connected([t['site'] for t in ts], lambda a, b: abs(a - b) <= radius):
                 acc.violate('molecule-spans-sites-beyond-radius', f'{label}: molecule {sorted(g)} has sites {sorted(set(t["site"] for t in ts))} radius {radius} ({cfg})', wit)
             if not connected([t['umi'] for t in ts], lambda a, b: (a == b) if d == 0 else hd(a, b) <= d):
                 acc.violate('molecule-links-distant-umis', f'{label}: molecule {sorted(g)} has UMIs {sorted(set(t["umi"] for t in ts))} hamming {d} ({cfg})', wit)
@@ -225,7 +230,7 @@ def run_case(case):
             acc.violate(mech, f'api write_tags post-condition: {mech} on molecule {desc} ({cfg})', dict(wit, molecule=desc))
         obs.bad.clear()
         # ------------------------------------------------------------ command line (single process) + re-tag
-        if case['i'] % 2 == 0:
+        if case['i'] % 2 == 0 and method != 'plain':
             from singlecellmultiomics.universalBamTagger.bamtagmultiome import run_multiome_tagging_cmd
             out1 = os.path.join(dd, 'tagged.bam')
             cmd = [bam, '-o', out1, '-method', method, '-umi_hamming_distance', str(d)]
